@@ -21,6 +21,8 @@ MENU["sum>3|count>=3"] = ("SUM(v) > 3 OR COUNT(*) >= 3", {"o": "or", "a": MENU["
 # COUNT(v) counts the rows in which v is present and not NULL - not the rows (seeded runs only)
 MENU["countv>=2"] = ("COUNT(v) >= 2", {"o": "cmp", "fn": "count", "arg": {"k": "col", "c": "v"}, "op": ">=", "lit": 2})
 MENU["countv>=3"] = ("COUNT(v) >= 3", {"o": "cmp", "fn": "count", "arg": {"k": "col", "c": "v"}, "op": ">=", "lit": 3})
+MENU["median>=2"] = ("MEDIAN(v) >= 2", {"o": "cmp", "fn": "median", "arg": {"k": "col", "c": "v"}, "op": ">=", "lit": 2})
+MENU["median<1|count>=4"] = ("MEDIAN(v) < 1 OR COUNT(*) >= 4", {"o": "or", "a": {"o": "cmp", "fn": "median", "arg": {"k": "col", "c": "v"}, "op": "<", "lit": 1}, "b": dict(MENU["count>=2"][1], lit=4)})
 MENU["band:sum"] = ("SUM(v) >= 3 AND SUM(v) < 8", {"o": "and", "a": dict(MENU["sum>3"][1], op=">=", lit=3), "b": dict(MENU["sum>3"][1], op="<", lit=8)})
 MENU["tier:sum,count"] = ("SUM(v) >= 6 OR COUNT(*) >= 3 AND SUM(v) >= 2", {"o": "or", "a": dict(MENU["sum>3"][1], op=">=", lit=6),
                           "b": {"o": "and", "a": dict(MENU["count>=2"][1], lit=3), "b": dict(MENU["sum>3"][1], op=">=", lit=2)}})
@@ -90,7 +92,7 @@ def run(tier):
     res.cov["exhaustive"] = True
     scen = []
     for pi, pred in enumerate(MENU):
-        if pred in ("band:sum", "tier:sum,count", "countv>=2", "countv>=3"):      # seeded runs only (not in the GlobalWin menu)
+        if pred in ("band:sum", "tier:sum,count", "countv>=2", "countv>=3", "median>=2", "median<1|count>=4"):      # seeded runs only (not in the GlobalWin menu)
             continue
         maxrows = 4 if quick else 5
         cfg = 'SPECIFICATION Spec\nCONSTANTS Groups = {"a","b"} RawVals = {0, 2, 4} Off = 1 MaxRows = %d Pred = "%s" Emit = TRUE\nINVARIANTS EmitScenario\nCHECK_DEADLOCK FALSE\n' % (maxrows, pred)
@@ -105,14 +107,14 @@ def run(tier):
         for k, h in enumerate(hists):
             scen.append(scenario(pred, h, k % len(SELECTS), rng, ["null", "missing", "mix"][k % 3], "lower" if k % 4 == 3 else "upper"))
     # longer seeded runs, more groups
-    for _ in range(100 if quick else 4000):
+    for _ in range(160 if quick else 6000):
         pred = rng.choice(list(MENU))
         L = rng.choice([8, 12, 20])
         groups = ["a", "b", "c", "d"][:rng.choice([1, 2, 4])]
         if rng.random() < 0.3:
             groups = rng.choice([["", None], ["", None, "a"], ["", "__missing__"]])      # the NULL group and the empty-string group are two groups
         hist = [{"g": rng.choice(groups), "v": rng.choice([NUL, -1, -1, 0, 1, 2, 3, 5])} for _ in range(L)]
-        if pred in ("max>=3|count>=3", "sum>3|count>=3", "band:sum", "tier:sum,count"):      # see GlobalWin.LeftNullable: NULL values only in the model-generated behaviours
+        if pred in ("max>=3|count>=3", "sum>3|count>=3", "band:sum", "tier:sum,count", "median<1|count>=4"):      # see GlobalWin.LeftNullable: NULL values only in the model-generated behaviours
             for h in hist:
                 if h["v"] == NUL:
                     h["v"] = 1
